@@ -91,6 +91,21 @@ class C09(Prop):
                 yield {"kind": "runs2", "programs": [prog_a, [{"name": "g0", "nodes": [dict(na, dataOuts=perm)], "bound": []}]],
                        "values": [["x", rng.randint(0, 5)]], "backend": rng.choice(["mem", "lru2", "disk"]), "runner": rng.choice(["sync", "async"])}
                 continue
+            if r < 0.14:
+                # one function behind two nodes that differ ONLY by a rename of its parameters (swap / rotation), sharing a cache
+                params = ["x", "y", "z"][: rng.choice([2, 2, 3])]
+                perm = params[:]
+                while perm == params:
+                    rng.shuffle(perm)
+                na = {"name": "na", "kind": "fn", "params": [[q, None] for q in params], "dataOuts": ["out"], "body": {"b": "tag", "t": "shared"}, "cache": True}
+                nb = dict(na, inRen=[[a, b] for a, b in zip(params, perm) if a != b])
+                vals = rng.sample(range(0, 9), len(params))
+                progs = [[{"name": "g0", "nodes": [na], "bound": []}], [{"name": "g0", "nodes": [nb], "bound": []}]]
+                if rng.random() < 0.5:
+                    progs.reverse()
+                yield {"kind": "runs2", "programs": progs, "values": [[q, v] for q, v in zip(params, vals)],
+                       "backend": rng.choice(["mem", "lru2", "disk"]), "runner": rng.choice(["sync", "async"])}
+                continue
             if r < 0.65:
                 g = rng.random()
                 if g < 0.5:
